@@ -149,7 +149,7 @@ def encodeElem (ie : IE) (v : Value) : Option Bytes :=
   | .octetArray, .bytes b =>
       if ie.len < VariableLength then (if b.length = ie.len then some b else none)
       else encodeVar b
-  | .string, .bytes b => if ie.len = VariableLength then encodeVar b else none
+  | .string, .bytes b => encodeVar b     -- whatever length the element declares: StringInfoElement ignores it
   | .boolean, .bool b => if ie.len = 1 then some [if b then 1 else 2] else none
   | .macAddress, .bytes b => if ie.len = 6 ∧ b.length = 6 then some b else none
   | .ipv4Address, .bytes b => if ie.len = 4 then to4 b else none
